@@ -89,7 +89,7 @@ class CompressionHandler:
         Accept-Encoding: compress;q=0.5, gzip;q=1.0
         Accept-Encoding: gzip;q=1.0, identity; q=0.5, *;q=0
 
-        returns sorted list of compression algorithms by priority
+        returns sorted list of compression algorithms by priority; algorithms with q=0 are "not acceptable" and left out
         """
         # for now work with standard python containers
         # if performance becomes an issue could be done within one loop
@@ -101,7 +101,7 @@ class CompressionHandler:
                 with contextlib.suppress(ValueError, IndexError):
                     parsed_headers[alg_name] = float(alg[1].split("=")[1])
 
-        return [pair[0] for pair in sorted(parsed_headers.items(), key=lambda kv: kv[1], reverse=True)]
+        return [pair[0] for pair in sorted(parsed_headers.items(), key=lambda kv: kv[1], reverse=True) if pair[1] > 0]
 
 
 class GzipCompressionHandler(AbstractDataCompressor):
